@@ -52,6 +52,24 @@ def gen_case(rng, tier):
         sort_then_slice_prob=0.4,
     )
     g = gen.Gen(rng, cfg)
+    if rng.random() < 0.02:
+        # directed: a join built from an explicit Join operation whose resolved equality columns
+        # include a NON-key column both operands have, with an operand behind a transfer or a
+        # materialization (so that the Processor has to rebuild the join)
+        key, nk = rng.choice("abc"), rng.choice("xy")
+        e1, e2 = ("sql", rng.choice(["it", "it2"])) if rng.random() < 0.7 else (rng.choice(["it", "it2"]), "sql")
+        L1 = g.leaf("sql", want_cols=[key, nk], allow_special=False)
+        L2 = g.leaf(e2 if e1 == "sql" else "sql", want_cols=[key, nk], allow_special=False)
+        if L1[1] == L2[1] == frozenset({key, nk}):
+            lhs = L1[0] if rng.random() < 0.6 else ["mat", L1[0], "MJ"]
+            rhs = ["xfer", L2[0], "sql"] if L2[2] != "sql" else ["mat", L2[0], "MK"]
+            if rng.random() < 0.3:
+                rhs = ["sel", rhs, ["cmp", "ge", ["ref", key], ["lit", -2]], None]
+            j = ["join", lhs, rhs, None, {"minmax": [key, nk]}] if rng.random() < 0.5 else ["join", rhs, lhs, None, {"minmax": [key, nk]}]
+            case = gen.case_from(g, (j, frozenset({key, nk}), "sql"))
+            case["repeats"] = rng.choice([1, 2])
+            case["directed"] = "explicit_join_columns_through_processor"
+            return case
     if rng.random() < 0.03:
         # directed: a materialized chain of a SQL leaf T and an empty transfer (the Processor prunes the
         # empty branch: the materialization ends up reading T's own table), joined to an operand that
